@@ -5,7 +5,10 @@ P="$1"; PROP="$2"; TIER="${3:-quick}"
 cd /repo || exit 2
 if ! git diff --quiet; then echo "repo working tree not clean" >&2; exit 2; fi
 git apply "$P" || { echo "patch does not apply" >&2; exit 2; }
+# evidence files in /verif describe the unchanged tree: keep them out of seeded runs
+mkdir -p /verif/target/evidence-backup; cp -f /verif/evidence/"$PROP".json /verif/target/evidence-backup/ 2>/dev/null
 cd /verif && ./check "$PROP" "$TIER"; RC=$?
 git -C /repo checkout -- . 
+cp -f /verif/target/evidence-backup/"$PROP".json /verif/evidence/ 2>/dev/null; rm -f /verif/replays/*.json
 echo "exit=$RC"
 exit $RC
